@@ -234,6 +234,9 @@ struct Interp : Sink
 				doOp(ops[i], id);
 				if(frames.size() != myDepth) { viol.raise("harness-error", "frame depth changed across a script operation"); return; }
 			}
+			// whatever the script did (removed this very callback, emptied or replaced the list): the invocation that is executing
+			// this callback object keeps it alive until the call returns
+			if(!viol.set && !f.alive("callback object at the end of its own call")) return;
 		}
 	}
 
